@@ -16,8 +16,12 @@
         (all of `write_samples`: the fresh samples and, behind them, whatever the buffer still holds from the
         packet before), seeks back over it and restores write_count / write_block, so that the next full packet
         overwrites it.  sds_close zeroes the tail of the buffer before it writes the last packet.
-        The header holds `total_written` (bumped by the full length at the start of every write call), never
-        psf->sf.frames: the caller's stale SF_INFO.frames (which sds_open overwrites with 0) cannot reach the file.
+        Since the round-9 repair (KF-SDS-RDWR-IDLE) the header holds psf->sf.frames, which sds_open sets to 0 whatever
+        the caller passed and the sf_write_* wrappers keep at the end of the audio; before it, it held
+        `total_written` (bumped by the full length at the start of every write call).  In an SFM_WRITE session
+        without seeks — what this machine describes — the two are equal at every point where a header is emitted
+        (the wrapper has moved sf.frames before it calls write_header), so the field `total` stands for both; the
+        rule for a handle opened SFM_RDWR on an existing file, where they differ, is lean/SfModel/SdsRdwr.lean.
   * `period`, `quant`
         the rate quantiser: 10^9 / rate nanoseconds in 21 bits, read back as 10^9 / period (16000 for period 0).
   * `blocks`, `parse`
@@ -63,7 +67,7 @@ structure St where
   pending : List Byte := []          -- what the store holds behind the complete packets
   buf : List Int := []               -- write_samples
   wcount : Nat := 0
-  total : Nat := 0                   -- total_written
+  total : Nat := 0                   -- the end of the audio: psf->sf.frames (before the round-9 repair: total_written)
   frames : Nat := 0                  -- psf->sf.frames
 deriving Repr, DecidableEq, Inhabited
 
